@@ -21,6 +21,7 @@ import (
 
 	json "github.com/go-json-experiment/json"
 	"github.com/go-json-experiment/json/jsontext"
+	jsonv1 "github.com/go-json-experiment/json/v1"
 
 	"verif/gen"
 	"verif/ref"
@@ -1036,6 +1037,17 @@ func buildMarshal(a *marshalArgs) (mc mcase, ok bool) {
 		mc = mcase{v: FallMap{O: 1, M: map[string]any{bad: 1}}, utf8: true}
 	case "utf8-fallmap-val":
 		mc = mcase{v: FallMap{O: 1, M: map[string]any{"k": bad}}, utf8: true}
+	case "utf8-stringtag-legacy-stringify":
+		// the `string` option quotes a Go string a second time under StringifyWithLegacySemantics: the
+		// ill-formed bytes sit in the INNER string
+		mc = mcase{v: struct {
+			P string `json:"p"`
+			Q string `json:"q,string"`
+		}{"ok", bad}, utf8: true}
+	case "utf8-stringtag-ptr-legacy-stringify":
+		mc = mcase{v: struct {
+			Q *string `json:"q,string"`
+		}{&bad}, utf8: true}
 	case "utf8-ptr":
 		mc = mcase{v: &bad, utf8: true}
 	case "utf8-value":
@@ -1085,8 +1097,11 @@ func buildMarshal(a *marshalArgs) (mc mcase, ok bool) {
 
 // marshalBy marshals through one API; the syntactic options go to the Encoder for
 // MarshalEncode (it ignores coder options passed per call) and to the call otherwise.
+// marshalExtra holds per-family semantic options (set by runMarshal for the family at hand).
+var marshalExtra []json.Options
+
 func marshalBy(api string, v any, syn ...jsontext.Options) ([]byte, error) {
-	opts := []json.Options{json.Deterministic(true)}
+	opts := append([]json.Options{json.Deterministic(true)}, marshalExtra...)
 	switch api {
 	case "write":
 		for _, o := range syn {
@@ -1113,6 +1128,11 @@ func runMarshal(w *run.W, a *marshalArgs) {
 		w.Broken("unknown marshal family %q", a.Family)
 		return
 	}
+	marshalExtra = nil
+	if strings.HasSuffix(a.Family, "-legacy-stringify") {
+		marshalExtra = []json.Options{jsonv1.StringifyWithLegacySemantics(true)} // `string` then also quotes Go strings
+	}
+	defer func() { marshalExtra = nil }()
 	w.Eval(1)
 	w.Count("marshal_cases", 1)
 	w.Count("mfam_"+a.Family, 1)
@@ -1182,7 +1202,9 @@ func runMarshal(w *run.W, a *marshalArgs) {
 				w.Count("marshal_permissive_ok", 1)
 			case ref.Parse(out, ref.Opts{}) == nil:
 				w.Violate("marshal-output-invalid", sig("api", api), "output %q with AllowInvalidUTF8 is not valid JSON in valid UTF-8", out)
-			case !bytes.Contains(out, []byte(`"`+ref.Sanitize(string(a.Bad))+`"`)):
+			case !bytes.Contains(out, []byte(`"`+ref.Sanitize(string(a.Bad))+`"`)) &&
+				!(strings.HasSuffix(a.Family, "-legacy-stringify") && bytes.Contains(out, []byte(`\"`+ref.Sanitize(string(a.Bad))+`\"`))):
+				// (under the legacy stringify option the string sits, quoted once more, inside the outer string)
 				w.Violate("marshal-substitution", sig("api", api), "output %q does not contain %q (one U+FFFD per ill-formed byte of %q)", out, ref.Sanitize(string(a.Bad)), a.Bad)
 			default:
 				w.Count("marshal_permissive_ok", 1)
@@ -1299,7 +1321,7 @@ var namedLeaves = []string{"value", "TokReader", "ValTok", "SkipTok", "ValReader
 var marshalFamilies = []string{"fallmap-field", "fallnamed-field", "fallval-field", "fallval-escaped", "fallval-internal", "fallval-internal-escaped", "fallval-nested", "value-internal",
 	"map-invalid-keys", "anymap-invalid-keys", "fallmap-invalid-keys", "fallval-invalid-keys", "fallval-invalid-vs-literal", "value-invalid-keys", "namedkey-invalid", "textkey", "textkey-struct", "nan-keys",
 	"utf8-string", "utf8-field", "utf8-elem", "utf8-mapval", "utf8-mapkey", "utf8-namedkey", "utf8-anystring", "utf8-anymapkey", "utf8-textmarshaler",
-	"utf8-textmarshaler-key", "utf8-fallmap-key", "utf8-fallmap-val", "utf8-ptr", "utf8-value", "utf8-fallval"}
+	"utf8-textmarshaler-key", "utf8-fallmap-key", "utf8-fallmap-val", "utf8-ptr", "utf8-value", "utf8-fallval", "utf8-stringtag-legacy-stringify", "utf8-stringtag-ptr-legacy-stringify"}
 
 var badGo = []string{"a\xffb", "\xc3", "x\xed\xa0\x80", "\xc0\x80z", "é\xff", "\xf4\x90\x80\x80", "q\xe2\x82"}
 
